@@ -15,7 +15,10 @@ VERIF = os.path.dirname(os.path.dirname(os.path.abspath(__file__)))
 if os.environ.get("SA_NO_EVIDENCE"):
     # self-tests and seed runs on scratch copies must not touch the committed evidence
     import tempfile as _tf
+    import atexit as _ae
+    import shutil as _sh
     _scratch = _tf.mkdtemp(prefix="sa_scratch_")
+    _ae.register(_sh.rmtree, _scratch, True)
     EVIDENCE_DIR = os.path.join(_scratch, "evidence")
     REPLAY_DIR = os.path.join(_scratch, "replay")
 else:
